@@ -16,7 +16,7 @@ RULE = ("(a) exhaustive: every flow grid of shape 1x1,1x2,2x1,1x3,3x1,2x2 "
         "single cell} x every river start; (b) Hypothesis: grids up to 12x12 "
         "(thorough 40x40) of three kinds (uniform codes with cycles, random "
         "acyclic forests, majority-direction, convergent on a pit), random outlet, 0..3 inlets "
-        "(some on the outlet's chain), random river start and nval. Oracle: "
+        "(some on the outlet's chain), random river start and nval, cell size in {1, 2, .25, 1000, 30.87} and origins away from zero. Oracle: "
         "independent Python graph model built from the literal ESRI code "
         "table: downstream/upstream relations, area = outlet + cells whose "
         "walk reaches the outlet with no inlet on the way, filled area "
@@ -39,9 +39,14 @@ def quiet():
             os.dup2(_devnull, 1)
 
 
-def make_catchment(fd):
+def make_catchment(fd, geom=None):
+    """geom = [cellsize, xllcorner, yllcorner] (unit cells at the origin by
+    default): relations, areas and path lengths count cells, whatever the
+    georeferencing."""
     nr, nc = fd.shape
-    g = Grid("fd", nc, nr, dtype=np.int64)
+    csz, xll, yll = geom or [1., 0., 0.]
+    g = Grid("fd", nc, nr, dtype=np.int64, cellsize=csz, xllcorner=xll,
+             yllcorner=yll)
     g.data = fd
     return g, Catchment("c", g)
 
@@ -324,6 +329,9 @@ def random_case(draw, tier):
     c["inlet_on_chain"] = draw(st.integers(0, 3))
     c["start"] = draw(st.integers(0, n - 1))
     c["nval"] = draw(st.sampled_from([1, 2, 5, 4 * n + 8]))
+    c["geom"] = [draw(st.sampled_from([1., 1., 2., 0.25, 1000., 30.87])),
+                 draw(st.sampled_from([0., 0., -1234.5, 1e5])),
+                 draw(st.sampled_from([0., 0., 77.25, -3e6]))]
     return c
 
 
@@ -332,9 +340,11 @@ def random_oracle(case):
     fd = G.fd_array(case)
     n = fd.size
     nr, nc = fd.shape
-    g, ca = make_catchment(fd)
+    g, ca = make_catchment(fd, case.get("geom"))
     down = G.down_model(fd)
-    labels = {f"kind:{case['kind']}"}
+    labels = {f"kind:{case['kind']}",
+              "cellsize:" + ("1" if case.get("geom", [1.])[0] == 1
+                             else "other")}
     check_relations(ca, fd, down)
     outlet = case["outlet"]
     # prefer an outlet with something upstream
@@ -375,7 +385,95 @@ def random_oracle(case):
     return {"nt": nt, "labels": sorted(labels)}
 
 
+# ------------------------------------------------------------ large grids
+def enum_large(tier):
+    shapes = [(150, 200), (3, 6000), (6000, 3), (1, 30000)] \
+        if tier == "quick" else \
+        [(150, 200), (3, 6000), (6000, 3), (1, 30000), (400, 500),
+         (2, 60000), (60000, 2)]
+    for nr, nc in shapes:
+        for k in range(3):
+            yield {"nrows": nr, "ncols": nc, "k": k}
+
+
+def large_oracle(case):
+    """Every cell flows east, the last column flows south to one sink: the
+    upstream area of any cell is known in closed form (default nval)."""
+    quiet()
+    nr, nc, k = case["nrows"], case["ncols"], case["k"]
+    n = nr * nc
+    fd = np.ones((nr, nc), dtype=np.int64)
+    fd[:, -1] = 4
+    fd[-1, -1] = 0
+    g, ca = make_catchment(fd, [[1., 0., 0.], [25., 3e5, 6e6],
+                                [0.001, -44., 112.]][k])
+
+    def upstream_closed(cell):
+        """cell plus everything draining through it"""
+        r, c = divmod(cell, nc)
+        if c < nc - 1:
+            return set(range(r * nc, r * nc + c + 1))
+        return set(range(0, (r + 1) * nc))
+
+    outlet = [n - 1, (nr // 2) * nc + nc - 1, (nr - 1) * nc + nc // 2][k]
+    inlet = [None, (nr // 3) * nc + nc // 2, (nr - 1) * nc + nc // 4][k]
+    exp = upstream_closed(outlet)
+    if inlet is not None:
+        if inlet in exp and inlet != outlet:
+            exp -= upstream_closed(inlet)
+        else:
+            inlet = None
+    if len(exp) == 1:
+        exp = set()
+    ca.delineate_area(outlet, [inlet] if inlet is not None else None)
+    a = np.asarray(ca.idxcells_area, dtype=np.int64)
+    if len(a) != len(set(a.tolist())) or set(a.tolist()) != exp:
+        got = set(a.tolist())
+        raise Violation(
+            f"{nr}x{nc} grid flowing east then south, outlet {outlet}, "
+            f"inlet {inlet}: area has {len(a)} cells, model {len(exp)}; "
+            f"missing e.g. {sorted(exp - got)[:3]}, extra e.g. "
+            f"{sorted(got - exp)[:3]}")
+    filled = set(int(x) for x in ca.idxcells_area_filled)
+    if filled != exp:
+        raise Violation("filled area differs from the (hole free) area on "
+                        f"a {nr}x{nc} grid")
+    if len(a):
+        ca.compute_flowpathlengths()
+        fp = ca.flowpathlengths.values
+        ro, co = divmod(outlet, nc)
+        if fp.shape != (len(a), 3):
+            raise Violation(f"flow path table shape {fp.shape}")
+        fp = fp[fp[:, 0].astype(np.int64) != outlet]
+        r, c = np.divmod(fp[:, 0].astype(np.int64), nc)
+        # cells of the outlet row left of it: straight east; others: east to
+        # the last column then south (the outlet is then in the last column)
+        L = np.where(r == ro, co - c, (nc - 1 - c) + (ro - r))
+        if len(fp) != len(a) - 1 or \
+                not np.all(fp[:, 1].astype(np.int64) == outlet) or \
+                not np.allclose(fp[:, 2], L, atol=1e-9, rtol=0):
+            i = int(np.argmax(~np.isclose(fp[:, 2], L, atol=1e-9, rtol=0)
+                              | (fp[:, 1].astype(np.int64) != outlet)))
+            raise Violation(
+                f"{nr}x{nc} grid: flow path from {int(fp[i, 0])} to outlet "
+                f"{outlet}: end {fp[i, 1]}, length {fp[i, 2]!r}, model "
+                f"{L[i]!r}")
+    # the river from the top-left cell runs along the first row and down
+    # the last column
+    df = delineate_river(g, 0)
+    cells = df["idxcell"].values.astype(np.int64) \
+        if "idxcell" in df.columns else df.index.values.astype(np.int64)
+    expr = np.concatenate([np.arange(nc), nc - 1
+                           + nc * np.arange(1, nr)]).astype(np.int64)
+    if len(cells) != len(expr) or not np.array_equal(cells, expr):
+        raise Violation(f"{nr}x{nc} grid: river from cell 0 has "
+                        f"{len(cells)} cells, model {len(expr)}")
+    return {"nt": True, "labels": [f"cells:{n}", f"area:{len(exp)}"]}
+
+
 SUBS = [
+    Sub("C06.large-grids", large_oracle, enumerate=enum_large,
+        shards=(12, 16)),
     Sub("C06.exhaustive-small-grids", exhaustive_oracle, enumerate=enum_cases,
         shards=(16, 16)),
     Sub("C06.exhaustive-3x3-ingrid", exhaustive_oracle, enumerate=enum_3x3,
